@@ -20,5 +20,5 @@ open Bnum.C03
 #print axioms i_checkedNextMultipleOf_spec
 #print axioms i_zero_divisor
 #print axioms i_min_neg_one
-#print axioms udivspec_one
-#print axioms udivspec_of_knuthD
+#print axioms knuthD_correct
+#print axioms udivspec
